@@ -58,6 +58,7 @@ def _expr_strategy(allow_cn):
         forms = [
             inner.map(lambda a: "{REC}(%s)" % a),
             st.just("{REC}(v, k=(v := @P(8)))"),  # a bare local read before a later argument rebinds it
+            st.just("{REC}(v, (v := @P(8)))"),  # ... the same on the statically rewritten (all-positional) path
             st.just("{REC}(v)"),
             inner.map(lambda a: "{REC}(%s, k=@P(7))" % a),
             inner.map(lambda a: "{REC}(*[%s])" % a),
